@@ -768,3 +768,44 @@ func Cfgs() []Cfg {
 	out = append(out, d)
 	return out
 }
+
+// ClassFrames: one well-formed frame per PayloadID class (1..29) sent from srcMAC with IPv4 source sip4 /
+// IPv6 source sip6 (whichever the class uses).
+func ClassFrames(g *G, srcMAC, sip4, sip6 []byte) map[int][]byte {
+	dst := g.Cfg.RouterMAC
+	ip4 := func(proto byte, seg []byte) []byte {
+		return Ether(dst, srcMAC, 0x0800, IP4(5, 20+len(seg), proto, sip4, []byte{8, 8, 8, 8}, nil, seg))
+	}
+	ip6 := func(proto byte, seg []byte) []byte {
+		return Ether(dst, srcMAC, 0x86dd, IP6(len(seg), proto, sip6, IP6s[4], seg))
+	}
+	udp := func(sp, dp int) []byte { return ip4(17, UDP(sp, dp, g.R.Bytes(12))) }
+	m := map[int][]byte{
+		1:  Ether(dst, srcMAC, 0x9000, g.R.Bytes(20)),
+		2:  Ether(dst, srcMAC, 100, g.R.Bytes(20)),
+		3:  Ether(MACBcast, srcMAC, 0x0806, ARP(6, 4, 1, srcMAC, sip4, dst, []byte{192, 168, 0, 11})),
+		4:  ip4(41, g.R.Bytes(20)),
+		5:  ip6(59, g.R.Bytes(20)),
+		6:  ip4(1, ICMP(8, 0, 1, 1, g.R.Bytes(8))),
+		7:  ip6(58, ICMP(128, 0, 1, 1, g.R.Bytes(8))),
+		8:  udp(4000, 4001),
+		9:  ip4(6, TCP(4000, 80, g.R.Bytes(8))),
+		10: udp(68, 67),
+		11: ip6(17, UDP(546, 547, g.R.Bytes(8))),
+		12: udp(4000, 53),
+		13: udp(5353, 5353),
+		14: udp(4000, 443),
+		15: udp(123, 123),
+		16: udp(4000, 1900),
+		17: udp(4000, 3702),
+		18: udp(137, 137),
+		19: udp(4000, 32412),
+		20: udp(4000, 10001),
+		21: udp(4000, 5355),
+		22: ip4(2, cat([]byte{0x11, 0, 0, 0}, []byte{224, 0, 0, 1})),
+	}
+	for id, et := range map[int]int{23: 0x8808, 24: 0x8899, 25: 0x88cc, 26: 0x890d, 27: 0x893a, 28: 0x6970, 29: 0x880a} {
+		m[id] = Ether(dst, srcMAC, et, g.R.Bytes(30))
+	}
+	return m
+}
